@@ -332,5 +332,13 @@ def r16_9(ctx):
     app = [n for n in ua.node.body if isinstance(n, ast.Expr) and isinstance(n.value, ast.Call) and ast.unparse(n.value.func) == "self.missing_syms.append"]
     (ctx.ok(construct, ua.loc(app[0]), nontrivial=False) if app else ctx.bad(construct, "the record is conditional or gone", ua.loc()))
 
+def r16_10(ctx):
+    """R16.10 what is displayed and compared is what would be written: every component the evaluators read has an invalidation edge,
+    range bounds included (C03 R03.1) - a stale clamped value makes needs_save() compare a value Save will not write."""
+    from . import c03
+    from .common import delegate
+    delegate(ctx, c03.r03_1, lambda c: "self.ranges" in c)
+
+
 def rules():
-    return [("R16.9", r16_9, 2), ("R16.8", r16_8, 2), ("R16.7", r16_7, 3), ("R16.1", r16_1, 2), ("R16.2", r16_2, 11), ("R16.3", r16_3, 3), ("R16.4", r16_4, 2), ("R16.5", r16_5, 6), ("R16.6", r16_6, 4)]
+    return [("R16.10", r16_10, 2), ("R16.9", r16_9, 2), ("R16.8", r16_8, 2), ("R16.7", r16_7, 3), ("R16.1", r16_1, 2), ("R16.2", r16_2, 11), ("R16.3", r16_3, 3), ("R16.4", r16_4, 2), ("R16.5", r16_5, 6), ("R16.6", r16_6, 4)]
